@@ -213,7 +213,13 @@ def run_verus_unit(unit, keep_dir=None, extra_args=None, rlimit=None, mutate=Non
                 "gen_line": gl, "text": txt, "label": label, "site": site,
                 "rendered": d.get("rendered", "")[:3000],
             })
-        if hard:
+        only_rlimit = hard and all(("rlimit" in h.lower() or "resource limit" in h.lower()) for h in hard)
+        if hard and only_rlimit and not rlimit and not res.failures:
+            # the solver gave up without naming an obligation: one retry with 8x the resource limit
+            res2 = run_verus_unit(unit, keep_dir=keep_dir, extra_args=extra_args, rlimit=80, mutate=mutate)
+            res2.reason = (res2.reason + " (after retry with --rlimit 80)").strip() if res2.status == "undecided" else res2.reason
+            return res2
+        if hard and not (only_rlimit and res.failures):
             res.status = "undecided"
             res.reason = "verifier could not decide: " + " | ".join(hard)[:2000]
         elif res.failures or res.errors:
